@@ -142,7 +142,7 @@ def _campaign_one(pid, seed, env, verif, harness, work, replays, binary, plan):
             # compare feedback (value profile) on half of the jobs: lets the fuzzer home in on magic constants
             cmd.append("-use_value_profile=1")
         procs.append((j, subprocess.Popen(cmd, cwd=base, env=e, stdout=log, stderr=subprocess.STDOUT), log))
-    deadline = time.time() + float(os.environ.get("VERIF_FUZZ_TIMEOUT", "3000"))
+    deadline = time.time() + float(os.environ.get("VERIF_FUZZ_TIMEOUT", "1500"))
     execs = 0
     new_units = 0
     crashed_jobs = 0
